@@ -158,15 +158,26 @@ class EPModel(KModel):
             return NotImplemented
         if name == 'core::slice::<impl [T]>::iter' and isinstance(a0, Obj) and a0.kind == 'shape':
             return Obj('dimseq', dim=a0.d['dim'])
-        if name.startswith('core::slice::<impl [T]>::') and isinstance(a0, Obj) and a0.kind == 'dimseq':
+        if name.startswith(('core::slice::<impl [T]>::', 'std::slice::<impl [T]>::', 'alloc::slice::<impl [T]>::')) and isinstance(a0, Obj) and a0.kind == 'dimseq':
             r = self.dimseq_call(last, a0, args, e)
             if r is not NotImplemented:
                 return r
         if name in ('std::iter::Iterator::try_for_each', 'std::iter::Iterator::for_each') and isinstance(a0, Obj) and \
-                a0.kind in ('indexed_iter', 'query_iter', 'query_zip'):
+                a0.kind in ('indexed_iter', 'query_iter', 'query_zip', 'query_map'):
             return self.query_each(a0, args[1], last == 'try_for_each', e)
         if name == 'std::iter::Iterator::fold' and isinstance(a0, Enum) and a0.adt == 'std::ops::Range':
             return self.range_fold(a0, args[1], args[2], e)
+        if last in ('extend_from_slice', 'extend') and name.split('::')[-2:-1] == ['Vec'] and isinstance(a0, Obj) and a0.kind == 'dimseq' and isinstance(a0.d['dim'], Dim):
+            more = deref_all(args[1])
+            more = more.d['dim'] if isinstance(more, Obj) and more.kind in ('shape', 'dimseq') else None
+            if isinstance(more, Dim):
+                a0.d['dim'] = Dim(a0.d['dim'].items + more.items)
+                return Unit()
+            raise Unsupported("a vector of lengths extended with something that is not a shape", e)
+        if last == 'index' and name.startswith('ndarray::Axis') and isinstance(a0, Enum) and a0.adt == 'ndarray::Axis':
+            return a0.fields['0']
+        if name == 'std::iter::Iterator::map' and isinstance(a0, Obj) and a0.kind in ('indexed_iter', 'query_iter', 'query_zip', 'query_map'):
+            return Obj('query_map', base=a0, clo=args[1])        # lazy: the closure runs when the element is consumed
         if name == 'std::iter::Iterator::zip' and isinstance(a0, Obj) and a0.kind in ('indexed_iter', 'query_iter'):
             b0 = deref_all(args[1])
             if isinstance(b0, Obj) and b0.kind == 'ndarr' and b0.d['role'] == 'query':
@@ -240,8 +251,10 @@ class EPModel(KModel):
     def dimseq_call(self, last, a0, args, e):
         """the index / shape seen as a sequence of usize (`as_array_view()`, `slice()`)"""
         src = a0.d['dim']
-        if last == 'iter':
+        if last in ('iter', 'into_iter'):
             return a0
+        if last in ('to_vec', 'to_owned') and isinstance(src, Dim):
+            return Obj('dimseq', dim=Dim(list(src.items)))
         if last in ('len', 'ndim'):
             return Num(self.qdim.ndim()) if isinstance(src, Obj) and src.kind == 'qidx' else Num(src.ndim())
         if last == 'get':
@@ -355,8 +368,10 @@ class EPModel(KModel):
                    lead='qidx-unit', ones=Rat.atom('len(Q)') if self.qdim.items and self.qdim.items[0][0] == 'seq' else Rat.const(len(self.qdim.items)))
 
     # ------------------------------------------------------------ loops
-    @staticmethod
-    def query_item(it):
+    def query_item(self, it):
+        if it.kind == 'query_map':
+            return self.interp.apply(it.d['clo'], [self.query_item(it.d['base'])], None)
+
         def item_of(o):
             q = o.d['of']
             elem = Ref(ValPlace(Num(Rat.atom('%s[e]' % q.d['name']))))
@@ -396,7 +411,7 @@ class EPModel(KModel):
 
     def for_loop(self, iterable, pat, body, frame, e):
         it = deref_all(iterable)
-        if isinstance(it, Obj) and it.kind in ('indexed_iter', 'query_iter', 'query_zip'):
+        if isinstance(it, Obj) and it.kind in ('indexed_iter', 'query_iter', 'query_zip', 'query_map'):
             # two generic elements: e (scenario result of the sink) followed by e2 (sink succeeds);
             # an early return propagates as the function's result
             for tag in ('e', 'e2'):
